@@ -179,6 +179,7 @@ theorem laterAnn_filter (legacy : Bool) (cfg : Config) (pid t : Nat) (rest : Lis
     | switchIn => simpa [laterAnn] using ih
     | switchOut => simpa [laterAnn] using ih
     | sched => simpa [laterAnn] using ih
+    | otherEvent => simpa [laterAnn] using ih
 
 theorem resolveDecl_filter_congr {a b : Announced} {t : Nat}
     (h : a.filter (fun e => decide (e.1 ≤ t)) = b.filter (fun e => decide (e.1 ≤ t))) (la : Nat) :
@@ -256,6 +257,7 @@ theorem expGo_eq (cfg : Config) (rs : List Rec) (st stL : List (Nat × Announced
     | switchIn pid tid t => unfold expectedSamples.go; simp only [expGo, accStep]; exact ih _ _ _ _
     | switchOut pid tid t => unfold expectedSamples.go; simp only [expGo, accStep]; exact ih _ _ _ _
     | sched pid tid t km ip chain => unfold expectedSamples.go; simp only [expGo, accStep]; exact ih _ _ _ _
+    | otherEvent pid tid t km ip chain => unfold expectedSamples.go; simp only [expGo, accStep]; exact ih _ _ _ _
 
 theorem expectedSamples_out (cfg : Config) (rs : List Rec) :
     (expectedSamples cfg rs).map (ExpSample.out cfg) = expGo cfg [] [] rs := expGo_eq cfg rs [] [] [] []
